@@ -30,7 +30,7 @@ def _reset_logging():
     for h in list(root.handlers):
         root.removeHandler(h)
     lg = logging.getLogger('penman')
-    lg.setLevel(logging.ERROR)
+    lg.setLevel(logging.NOTSET)      # the library default: whatever main() set must not leak into library calls
 
 
 class _SimSelect:
